@@ -50,6 +50,7 @@ type Config struct {
 	Twin             bool           `json:"twin,omitempty"`
 	KubeProgressOnly bool           `json:"kube_progress_only,omitempty"`
 	ScaleInWatch     bool           `json:"scale_in_watch,omitempty"`
+	Upg              *UpgCfg        `json:"upg,omitempty"`
 }
 
 // BuildSet returns the object a user submits for cfg.
